@@ -2,7 +2,7 @@ import XalanModel.C01.Spec
 import XalanModel.C01.Core
 /-!
 Glue for `xm_c01 core`: turns a parsed stylesheet of the Core fragment (literal text, value-of, literal result
-elements without attributes, if, choose, for-each, apply-templates, call-template; no variables, sort keys or
+elements, xsl:attribute with a literal name, copy-of / comment / processing-instruction, if, choose, for-each, apply-templates, call-template; no variables, sort keys or
 parameters) into a `Core.Prog` and an `Oracle` whose answers come from the specification's XPath evaluator
 (`Spec.eval`) and rule choice (`chooseTemplate`).  Built-in rules become extra templates at the end of the
 program.  Driver code only (not part of the model).
@@ -15,7 +15,12 @@ namespace Driver.C01Core
 partial def toNode (ss : Stylesheet) : Instr → Option Core.Node
   | .text _ => some (.mk .text [])
   | .valueOf _ => some (.mk .text [])
-  | .lre name [] body => (body.mapM (toNode ss)).map fun ks => .mk (.lre name) ks
+  | .lre name attrs body =>
+    (body.mapM (toNode ss)).map fun ks => .mk (.lre name) (attrs.map (fun a => Core.Node.mk (.attr a.1) []) ++ ks)
+  | .attribute [.lit name] _ _ => some (.mk (.attr name) [])
+  | .copyOf _ => some (.mk .emit [])
+  | .comment _ => some (.mk .emit [])
+  | .pi _ _ => some (.mk .emit [])
   | .if_ _ body => (body.mapM (toNode ss)).map fun ks => .mk .choose [.mk .block ks]
   | .choose whens other => do
     let ws ← whens.mapM fun w => match w with
@@ -29,11 +34,19 @@ partial def toNode (ss : Stylesheet) : Instr → Option Core.Node
     (ss.templates.zipIdx.reverse.find? fun p => p.1.name = some name).map fun p => .mk (.call p.2) []
   | _ => none
 
-partial def instrAt : List Instr → List Nat → Option Instr
-  | body, [i] => body[i]?
+/-- what sits at an address: an instruction, or the attribute value template of a literal result element -/
+inductive Item | instr (i : Instr) | lreAttr (parts : List AvtPart)
+
+partial def instrAt : List Instr → List Nat → Option Item
+  | body, [i] => (body[i]?).map .instr
   | body, i :: rest =>
     match body[i]? with
-    | some (.lre _ _ b) => instrAt b rest
+    | some (.lre _ attrs b) =>
+      (match rest with
+       | j :: r =>
+         if j < attrs.length then (if r.isEmpty then (attrs[j]?).map fun a => Item.lreAttr a.2 else none)
+         else instrAt b ((j - attrs.length) :: r)
+       | [] => none)
     | some (.forEach _ _ b) => instrAt b rest
     | some (.if_ _ b) => (match rest with | 0 :: r => if r.isEmpty then none else instrAt b r | _ => none)
     | some (.choose whens other) =>
@@ -74,8 +87,12 @@ def fuel : Nat := 2000
 def oracle (ss : Stylesheet) (d : Doc) : Core.Oracle :=
   let nT := ss.templates.length
   let nM := (modes ss).length
-  let look (a : Core.Addr) : Option Instr :=
+  let lookItem (a : Core.Addr) : Option Item :=
     (ss.templates[a.1]?).bind fun t => instrAt t.body a.2.reverse
+  let look (a : Core.Addr) : Option Instr :=
+    match lookItem a with
+    | some (.instr i) => some i
+    | _ => none
   let modeOfApply (a : Core.Addr) : Option String :=
     if a.1 < nT then (match look a with | some (.applyTemplates _ m _ _) => m | _ => none)
     else ((modes ss)[a.1 - nT]?).getD none
@@ -118,8 +135,17 @@ def oracle (ss : Stylesheet) (d : Doc) : Core.Oracle :=
         match look a with
         | some (.text s) => s
         | some (.valueOf e) => (match eval d fuel e (ctxOf n) with | some v => toStr d v | none => "")
-        | _ => ""
-      else (d.node n.1).value }
+        | some (.attribute _ _ body) =>
+          (match execSeq Quirks.spec ss d [] fuel body (ctxOf n) with | some evs => rtfString evs | none => "")
+        | _ =>
+          match lookItem a with
+          | some (.lreAttr parts) => (evalAvt d fuel parts (ctxOf n)).getD ""
+          | _ => ""
+      else (d.node n.1).value
+    evs := fun a n =>
+      match look a with
+      | some i => (execOne Quirks.spec ss d [] fuel i (ctxOf n)).getD []
+      | none => [] }
 
 /-- template for the root node in the default mode -/
 def rootTemplate (ss : Stylesheet) (d : Doc) : Nat := (oracle ss d).tmpl (builtinElem ss none, [0]) (0, 1, 1)
